@@ -174,6 +174,17 @@ func (m *migrateBuilder) addModule(ctx context.Context, moduleDirPath string) (r
 		if err != nil {
 			return err
 		}
+		// A directory without a buf.yaml is built, linted and checked with the v1 defaults,
+		// so the migrated module must get the v2 equivalent of the v1 defaults rather than the
+		// v2 defaults, which contain additional rules.
+		defaultLintConfig, err := equivalentLintConfigInV2(ctx, m.logger, bufconfig.DefaultLintConfigV1)
+		if err != nil {
+			return err
+		}
+		defaultBreakingConfig, err := equivalentBreakingConfigInV2(ctx, m.logger, bufconfig.DefaultBreakingConfigV1)
+		if err != nil {
+			return err
+		}
 		emptyModuleConfig, err := bufconfig.NewModuleConfig(
 			moduleRootRelativeToDestination,
 			nil,
@@ -184,27 +195,8 @@ func (m *migrateBuilder) addModule(ctx context.Context, moduleDirPath string) (r
 			map[string][]string{
 				".": {},
 			},
-			bufconfig.NewLintConfig(
-				bufconfig.NewEnabledCheckConfigForUseIDsAndCategories(
-					bufconfig.FileVersionV2,
-					nil,
-					false,
-				),
-				"",
-				false,
-				false,
-				false,
-				"",
-				false,
-			),
-			bufconfig.NewBreakingConfig(
-				bufconfig.NewEnabledCheckConfigForUseIDsAndCategories(
-					bufconfig.FileVersionV2,
-					nil,
-					false,
-				),
-				false,
-			),
+			defaultLintConfig,
+			defaultBreakingConfig,
 		)
 		if err != nil {
 			return err
